@@ -153,3 +153,50 @@ Proof. rewrite hrun_app, hfinal_ignores_calls. reflexivity. Qed.
 Lemma history_outcome_meets_spec p n f st a x1 x2 rs wi we :
   spec_ok (hcase p n f st a x1 x2 rs wi we) (model_outcome (hcase p n f st a x1 x2 rs wi we)) = true.
 Proof. apply model_meets_spec. Qed.
+
+(* ---- the aligned (linear-time) check implies the lookup-based one ---- *)
+Lemma accessor_eqb_eq a b : accessor_eqb a b = true -> a = b.
+Proof. destruct a, b; simpl; congruence. Qed.
+Lemma kind_eqb_eq a b : kind_eqb a b = true -> a = b.
+Proof. destruct a, b; simpl; congruence. Qed.
+Lemma avail_eqb_eq a b : avail_eqb a b = true -> a = b.
+Proof. destruct a, b; simpl; congruence. Qed.
+Lemma pcase_eqb_eq a b : pcase_eqb a b = true -> a = b.
+Proof.
+  destruct a, b. unfold pcase_eqb. simpl. intro H.
+  repeat (apply andb_true_iff in H; destruct H as [H ?]).
+  f_equal; auto using accessor_eqb_eq, kind_eqb_eq, avail_eqb_eq, Bool.eqb_prop.
+Qed.
+Lemma pcase_eqb_refl a : pcase_eqb a a = true.
+Proof. destruct a as [[] [] [] [] [] [] [] [] [] []]; reflexivity. Qed.
+
+Lemma wf_aligned_rows cs t : wf_aligned cs t = true ->
+  (forall r, In r t -> spec_ok (fst r) (snd r) = true) /\ (forall c, In c cs -> exists o, In (c, o) t).
+Proof.
+  revert t. induction cs as [|c cr IH]; intros [|[c' o] tr] H; try discriminate.
+  - split; [intros r []|intros c []].
+  - cbn [wf_aligned] in H. apply andb_true_iff in H. destruct H as [H Hr].
+    apply andb_true_iff in H. destruct H as [E S]. apply pcase_eqb_eq in E. subst c'.
+    destruct (IH tr Hr) as [A B]. split.
+    + intros r [<-|Hin]; [exact S | apply A; exact Hin].
+    + intros d [<-|Hin]; [exists o; left; reflexivity|].
+      destruct (B d Hin) as (o' & Ho'). exists o'. right. exact Ho'.
+Qed.
+
+Lemma plookup_in c t o : In (c, o) t -> exists o', plookup c t = Some o' /\ In (c, o') t.
+Proof.
+  induction t as [|[c' o1] tr IH]; intros H; [destruct H|].
+  cbn [plookup]. destruct (pcase_eqb c c') eqn:E.
+  - apply pcase_eqb_eq in E. subst c'. exists o1. split; [reflexivity | left; reflexivity].
+  - destruct H as [H|H].
+    + inversion H; subst. rewrite pcase_eqb_refl in E. discriminate.
+    + destruct (IH H) as (o' & L & I). exists o'. split; [exact L | right; exact I].
+Qed.
+
+Lemma wf_aligned_sound cs t : wf_aligned cs t = true -> wf_on cs t = true.
+Proof.
+  intro H. destruct (wf_aligned_rows cs t H) as [A B].
+  unfold wf_on. apply forallb_forall. intros c Hc. unfold row_ok.
+  destruct (B c Hc) as (o & Ho). destruct (plookup_in c t o Ho) as (o' & L & I).
+  rewrite L. exact (A (c, o') I).
+Qed.
